@@ -198,6 +198,10 @@ pub enum Edit {
     SwapFields(u16, u16, u8),
     /// cut a block of characters and paste it elsewhere
     MoveBlock(u16, u8, u16),
+    /// replace a character by a multi-byte one and delete as many following characters as keeps
+    /// the byte length unchanged (every later character keeps its byte offset, but offsets computed
+    /// from a fixed stride no longer fall on character boundaries)
+    WidenKeepLength(u16, u8),
 }
 
 #[derive(Clone, Debug, Hash, PartialEq, Eq, Serialize, Deserialize)]
@@ -219,6 +223,7 @@ fn edit() -> BoxedStrategy<Edit> {
         2 => (any::<u16>(), 0u8..6).prop_map(|(p, k)| Edit::Number(p, k)),
         2 => (any::<u16>(), any::<u16>(), 0u8..3).prop_map(|(a, b, s)| Edit::SwapFields(a, b, s)),
         1 => (any::<u16>(), 1u8..60, any::<u16>()).prop_map(|(a, l, b)| Edit::MoveBlock(a, l, b)),
+        2 => (any::<u16>(), 0u8..6).prop_map(|(a, c)| Edit::WidenKeepLength(a, c)),
     ]
     .boxed()
 }
@@ -325,6 +330,25 @@ pub fn apply_edits(base: &str, edits: &[Edit]) -> String {
                         out.extend(sg);
                     }
                     cs = out;
+                }
+            }
+            Edit::WidenKeepLength(a, c) => {
+                if !cs.is_empty() {
+                    let wide = ['é', 'ß', '€', '\u{1F600}', 'ΐ', '\u{0301}'][*c as usize % 6];
+                    let i = pos_of(cs.len() - 1, *a);
+                    let grow = wide.len_utf8() - cs[i].len_utf8().min(wide.len_utf8());
+                    cs[i] = wide;
+                    // delete following single-byte characters to make up for the growth
+                    let mut need = grow;
+                    let mut j = i + 1;
+                    while need > 0 && j < cs.len() {
+                        if cs[j].len_utf8() == 1 {
+                            cs.remove(j);
+                            need -= 1;
+                        } else {
+                            j += 1;
+                        }
+                    }
                 }
             }
             Edit::MoveBlock(a, l, b) => {
